@@ -230,6 +230,18 @@ def gen_scenario(seed: int, profile: Optional[dict] = None) -> dict:
                 s["beh"]["p_future"] = rng.choice([0.2, 0.5])
         if s["type"] == "event-based" and rng.random() < prof["p_initial_event"]:
             s["initial_event"] = rng.randrange(0, max(1, until))
+    # a persistent output announced for a *later* time: well-defined when the output times of the producer
+    # increase strictly (a constant offset on a simulator that performs no sub-steps, i.e. outside every group)
+    # and when every connection from its persistent outputs declares initial data (before the first value is
+    # due a connection without initial data has nothing to deliver; mosaik warns that this "will be an error").
+    # Own random stream: the rest of the scenario is what it was without this feature.
+    rng_cf = random.Random(seed ^ 0x5cf)
+    for s in sims:
+        pers_conns = [c for c in conns if c["src"] == s["sid"] and _outs_of(s, c["se"])[c["sa"]] == "persistent"]
+        if s["type"] != "time-based" and not s["path"] and "p_future" not in s["beh"] and pers_conns and \
+                all("init" in c for c in pers_conns):
+            if rng_cf.random() < prof.get("p_const_future", 0.6):
+                s["beh"]["const_future"] = rng_cf.choice([1, 1, 2, 3])
     cfg = {
         "cache": rng.random() < 0.5 if prof["cache"] is None else prof["cache"],
         "lazy": rng.random() < 0.7 if prof["lazy"] is None else prof["lazy"],
